@@ -16,22 +16,30 @@ from vlib.common import Rng
 
 CLAIMED = True
 LEVEL = "proof"
-TECHNIQUE = ("Lean 4 proof (strict weak order of the multi-key comparator, cache transparency by invariant over call "
-             "histories, stable-sorted-permutation specification and its uniqueness) over a hand model of NodeSorter "
-             "plus a regenerated numeric comparison/sentinel; correspondence run of generated xsl:sort stylesheets "
-             "through the real XalanTransformer")
-LEVEL_TEXT = ("Machine-checked: for every node list and key list the modelled NodeSorter (comparator mirrored from "
-              "NodeSorter.cpp, numeric branch and sentinel regenerated from the source on every run, caches threaded "
-              "through every comparator call) returns a permutation that is lexicographically sorted by the keys "
-              "(NaN first, descending flip per key), stable, unique with these properties, and position()/last() are "
-              "index+1/length. The model is tied to the working tree by the translator and by running generated "
-              "stylesheets (for-each / apply-templates, 1-4 xsl:sort) on the real library and on the compiled model.")
-LEVEL_NOTE = ("Trusted: Lean kernel; axioms propext/Classical.choice/Quot.sound only; std::stable_sort meets its contract "
-              "for a strict weak order (modelled as List.mergeSort; the strict-weak-order precondition is proved); key "
-              "evaluation (XPath, string->number) and ICU collation are parameters (collation assumed a three-way total "
-              "preorder; concrete code-unit order proved to be one and used for fixed-length lower-case ASCII keys); the "
-              "hand transcription of NodeSorter.cpp / ElemForEach.cpp (checked by the correspondence run, bounded by "
-              "generator coverage); IEEE-754 ordering modelled on the bit pattern (sign, magnitude).")
+TECHNIQUE = ("Lean 4 machine-checked proof over a hand model of NodeSorter / ElemForEach::sortChildren / the ICU collation bridge "
+             "(comparator, result caches, sorter state across sorts, collator cache) whose numeric comparison and sentinel are "
+             "regenerated from NodeSorter.cpp on every run by a translator that also asserts the mirrored code shape; "
+             "correspondence runs of generated xsl:sort stylesheets through the real XalanTransformer against the compiled model, "
+             "with an independent executable specification predicate evaluated on every order the implementation produced")
+LEVEL_TEXT = ("Proved for every node list and every key list (32 theorems, no sorry, axioms propext/Classical.choice/Quot.sound): the "
+              "multi-key comparator is a strict weak order equal to the lexicographic specification (text by collation, numbers with "
+              "NaN least, descending per key); the number/string caches are transparent over any history of comparator calls and "
+              "empty at the exit of every sort on normal and exceptional paths, so over the whole life of a transformer's sorter "
+              "(including aborted and nested sorts) each completed sort returns a permutation that is sorted, stable and unique "
+              "with these properties; insertion sort through the caches, List.mergeSort and a libstdc++-shaped run/merge sort agree; "
+              "each comparison is collated with its own key's language and case-order through any state of the ICU collator cache "
+              "(code-unit order when ICU refuses the language name); position()/last() are index+1/length. Tied to the working tree "
+              "by the translator and by ~8 300 (quick) / ~174 000 (thorough, part under ASan) generated cases run on the real library "
+              "and on the model, with exact observation of key values and of processing order.")
+LEVEL_NOTE = ("Trusted: Lean kernel (thorough tier: leanchecker); std::stable_sort's internal buffer management (its contract is used; "
+              "the strict-weak-order precondition, the algorithm shape and the uniqueness of the result are proved); XPath evaluation "
+              "of key expressions and string->number conversion are parameters of the model (the conversion is checked exactly, bit "
+              "for bit, against an exact XPath Number oracle on the generated value pool only); ICU's collation is a parameter assumed "
+              "to be a three-way total preorder (proved for code-unit order, tested on every sampled string table; which collator and "
+              "attributes are used is modelled and proved); the hand transcription of NodeSorter.cpp, ElemForEach.cpp and "
+              "ICUBridgeCollationCompareFunctorImpl.cpp is validated by shape assertions and by the correspondence runs, whose "
+              "guarantee is bounded by generator coverage; IEEE-754 ordering is modelled on the bit pattern; the translator's "
+              "regex/brace parser, the harness and the generators are trusted.")
 DESIGN_REF = "DESIGN.md section 5, C16; design/C16.md"
 
 P = "XalanModel.Props.C16."
@@ -59,11 +67,13 @@ THEOREMS = [P + t for t in [
     "sharedLang_counterexample",
     "collator_sees_own_key",
     "collator_history_sees_own_keys",
+    "collator_fallback",
     "collator_cache_bounded",
     "later_key_reached_only_on_tie",
     "sorter_clean_at_exit",
     "sortOnce_correct",
     "sorter_history_correct",
+    "nested_sorts_correct",
     "noCacheGuards_counterexample",
     "process_positions",
 ]]
@@ -181,12 +191,24 @@ def run_cases(harness, model, cases, work, tag):
             continue
         order = [p[0] for p in parsed]
         r["order"] = order
+        # extras: the parameter passed by xsl:with-param, and the inner sort run inside every iteration
+        for p in parsed:
+            ex = p[4]
+            if case.get("with_param") and case["mode"] == "at" and "W7;" not in ex:
+                r["extra_bad"] = "row %d: xsl:with-param value not seen in the sorted apply-templates body: %r" % (p[0], ex)
+            if case.get("inner_same") and not case.get("abort"):
+                _, _, inn = ex.partition("I:")
+                if [x for x in inn.split(",") if x] != [str(i) for i in order]:
+                    r["extra_bad"] = ("row %d: the same sort run inside the iteration gave %r, the outer order is %r"
+                                      % (p[0], inn, order))
         r["triples"] = ",".join("%d:%d:%d" % (p[0], p[1], p[2]) for p in parsed) or "-"
         # generator assumptions: the values the processor saw are the ones handed to the model
         for p in parsed:
             if 0 <= p[0] < n:
                 exp = G.expected_echo(case, p[0])
-                if len(p[3]) != len(exp) or any(g not in e for g, e in zip(p[3], exp)):
+                got = [("NaN" if (len(g) == 16 and e == ["NaN"] and all(ch in "0123456789abcdef" for ch in g)
+                                  and (int(g, 16) & 0x7fffffffffffffff) > 0x7ff0000000000000) else g) for g, e in zip(p[3], exp)]
+                if len(p[3]) != len(exp) or any(g not in e for g, e in zip(got, exp)):
                     r["echo_bad"] = "row %d printed %r, generator assumed %r" % (p[0], p[3], exp)
         # cache model: a cacheable value (number != sentinel, non-empty string) is evaluated at most once
         if probes != "-" and TRANSLATED:
@@ -488,6 +510,9 @@ def run(ctx):
         if res.get("echo_bad"):
             echo_ok = False
             ctx.extra.setdefault("echo_mismatches", []).append({"case": G.describe(case), "what": res["echo_bad"]})
+        if res.get("extra_bad"):
+            ctx.fail("sort.nested-or-param: " + G.describe(case), res["extra_bad"],
+                     {"case": case_to_json(case), "history": [], "request": G.build(case)[0]})
         if res.get("probe_bad"):
             probe_ok = False
             ctx.extra.setdefault("probe_mismatches", []).append({"case": G.describe(case), "what": res["probe_bad"]})
